@@ -38,7 +38,8 @@ var scopeNames = []string{"route", "no-route", "no-method", "redirect", "options
 // Config is one middleware configuration.
 type Config struct {
 	Globals  []int `json:"globals"`   // scope masks, registration order (mask 255 = WithMiddleware i.e. all handlers)
-	Default  bool  `json:"default"`   // DefaultOptions() first
+	Default  bool  `json:"default"`   // DefaultOptions() present ...
+	DefPos   int   `json:"def_pos"`   // ... after DefPos global middleware options (0 = first)
 	RouteMws int   `json:"route_mws"` // number of route-specific middleware on route A (0..2)
 	Update   int   `json:"update"`    // -1: no update; otherwise number of route-specific middleware after Update
 	// RouteRedirect: trailing-slash redirection is enabled on route A only (router-wide flag off)
@@ -46,7 +47,7 @@ type Config struct {
 }
 
 func (c Config) String() string {
-	return fmt.Sprintf("globals(masks)=%v default=%v routeA-mws=%d update=%d redirect-per-route=%v", c.Globals, c.Default, c.RouteMws, c.Update, c.RouteRedirect)
+	return fmt.Sprintf("globals(masks)=%v default=%v@%d routeA-mws=%d update=%d redirect-per-route=%v", c.Globals, c.Default, c.DefPos, c.RouteMws, c.Update, c.RouteRedirect)
 }
 
 func expected(cfg Config, kind int, routeIDs []string, h string) string {
@@ -83,15 +84,18 @@ func evalConfig(cfg Config) (class, msg string) {
 	var tr []string
 	trace = &tr
 	var opts []fox.GlobalOption
-	if cfg.Default {
-		opts = append(opts, fox.DefaultOptions())
-	}
 	for i, m := range cfg.Globals {
+		if cfg.Default && cfg.DefPos == i {
+			opts = append(opts, fox.DefaultOptions())
+		}
 		if m == 255 {
 			opts = append(opts, fox.WithMiddleware(mw(fmt.Sprintf("g%d", i))))
 		} else {
 			opts = append(opts, fox.WithMiddlewareFor(fox.HandlerScope(m), mw(fmt.Sprintf("g%d", i))))
 		}
+	}
+	if cfg.Default && cfg.DefPos >= len(cfg.Globals) {
+		opts = append(opts, fox.DefaultOptions())
 	}
 	opts = append(opts,
 		fox.WithNoRouteHandler(handler("NR")), fox.WithNoMethodHandler(handler("NM")), fox.WithOptionsHandler(handler("OP")))
@@ -192,12 +196,13 @@ func configs(quick bool) []Config {
 	}
 	var out []Config
 	for _, l := range lists {
-		for _, def := range []bool{false, true} {
+		// without DefaultOptions, and with it at every position of the option list
+		for dp := -1; dp <= len(l); dp++ {
 			for rm := 0; rm <= 2; rm++ {
 				for _, up := range []int{-1, 0, 1} {
-					out = append(out, Config{Globals: l, Default: def, RouteMws: rm, Update: up})
+					out = append(out, Config{Globals: l, Default: dp >= 0, DefPos: max(dp, 0), RouteMws: rm, Update: up})
 					if up != 0 {
-						out = append(out, Config{Globals: l, Default: def, RouteMws: rm, Update: up, RouteRedirect: true})
+						out = append(out, Config{Globals: l, Default: dp >= 0, DefPos: max(dp, 0), RouteMws: rm, Update: up, RouteRedirect: true})
 					}
 				}
 			}
